@@ -87,16 +87,32 @@ Proof.
   destruct r as [[]|code| |]; cbn [fst]; try exact P. eapply lperm_trans; [exact P|apply IH].
 Qed.
 
+Lemma commit_attempt_lperm v lr slot dst : lperm v (fst (commit_attempt c v lr slot dst)).
+Proof.
+  unfold commit_attempt. destruct (get_block v lr dst) as [b|]; [|apply lperm_refl]. destruct (sm_sub _ _ _) as (m1 & s1).
+  destruct (if a_persist _ then _ else _) as ((m2 & s2) & mr). cbn [fst].
+  eapply lperm_trans; [apply lperm_set_m|apply lperm_put_block].
+Qed.
+
+Lemma replay_lperm log : forall v lr, lperm v (fst (replay_log c v lr log)).
+Proof.
+  induction log as [|[slot dst|mv] tl IH]; intros v lr; cbn [replay_log]; [apply lperm_refl| |].
+  - pose proof (commit_attempt_lperm v lr slot dst) as P. destruct (commit_attempt c v lr slot dst) as (v1 & r). cbn [fst] in P.
+    destruct r as [[]|code| |]; cbn [fst]; try exact P; (eapply lperm_trans; [exact P|apply IH]).
+  - pose proof (commit_move_lperm v lr mv) as P. destruct (commit_move c v lr mv) as (v1 & r). cbn [fst] in P.
+    destruct r as [[]|code| |]; cbn [fst]; try exact P. eapply lperm_trans; [exact P|apply IH].
+Qed.
+
 Lemma collect_list_lperm v dc p : lperm v (fst (collect_list c v dc p)).
 Proof.
   unfold collect_list. destruct (project v (dc_lr dc)) as [st|]; [|apply lperm_refl].
   destruct (get_blist v (dc_lr dc)) as [l|] eqn:Hg; [|apply lperm_refl].
-  destruct (Defrag.collect_moves st (dc_ctx dc) p) as (cs & wr).
+  destruct (Defrag.collect_moves_f vam (att_commit c (dc_lr dc)) st (dc_ctx dc) p v) as (((cs & env) & log) & wr).
   assert (H1 : lperm v (set_blist v (dc_lr dc) (set_blocks l (unproject_blocks (bl_blocks l) (Defrag.d_blocks (Defrag.cs_st cs)))))).
   { apply (lperm_set_blist v (dc_lr dc) l _ Hg). unfold lp, ids. cbn. rewrite unproject_ids.
     split; [apply Permutation_refl|split; [reflexivity|apply cfg_eq_set_blocks]]. }
   destruct wr as [| |why]; [| |apply lperm_refl];
-    (match goal with |- context [commit_moves c ?w ?lr ?ms] => pose proof (commit_moves_lperm ms w lr) as P; destruct (commit_moves c w lr ms) as (v2 & r) end;
+    (match goal with |- context [replay_log c ?w ?lr ?ms] => pose proof (replay_lperm ms w lr) as P; destruct (replay_log c w lr ms) as (v2 & r) end;
      cbn [fst] in P; destruct r as [[]|code| |]; cbn [fst]; eapply lperm_trans; eauto).
 Qed.
 
